@@ -103,6 +103,9 @@ fn eval(ctx: &Ctx, case: &Case) {
 }
 
 pub fn replay(ctx: &Arc<Ctx>, v: &Value) {
+    if crate::cold::replay(ctx, v) {
+        return;
+    }
     let c: Case = serde_json::from_value(v.clone()).expect("C08 case");
     eval(ctx, &c);
 }
@@ -199,4 +202,5 @@ pub fn run(ctx: &Arc<Ctx>) {
     let (k, v) = key_ivs(ctx)[2].clone();
     eval(ctx, &Case::Long { key: k, iv: v, total: long_total, parts: 16 });
     ctx.assume("the LFSR s16 == 0 replacement is forced only in the first initialisation round (crafted key/IV pairs, confirmed by the reference's branch counter); in later rounds and in work mode it cannot be forced from outside");
+    crate::cold::check(ctx, "C08");
 }
